@@ -1241,7 +1241,7 @@ impl TypeCheckVisitor<'_> {
             Type::UserDefined {
                 kind: TypeDefKind::Struct,
                 ref name,
-                ..
+                ref args,
             } => {
                 if let Some(TypeDef::Struct(struct_info)) = self.env.get_type_def(name) {
                     for field in &struct_info.fields {
@@ -1249,8 +1249,16 @@ impl TypeCheckVisitor<'_> {
                             self.id_to_def_pos
                                 .insert(field_sym.id, field.sym.position.clone());
 
+                            // A field of a generic struct has the type
+                            // the receiver's type arguments give it.
+                            let mut field_type_bindings = type_bindings.clone();
+                            for (type_param, arg) in struct_info.type_params.iter().zip(args) {
+                                field_type_bindings
+                                    .insert(type_param.name.clone(), Some(arg.clone()));
+                            }
+
                             let field_ty =
-                                Type::from_hint(&field.hint, &self.env.types, type_bindings)
+                                Type::from_hint(&field.hint, &self.env.types, &field_type_bindings)
                                     .unwrap_or_err_ty();
                             return field_ty;
                         }
@@ -2019,6 +2027,7 @@ impl TypeCheckVisitor<'_> {
                 }
             }
 
+            let mut fields_match = true;
             for (sym, expr_pos, ty) in field_tys {
                 let Some((field_pos, field_decl_ty)) = sym_to_expected_ty.get(&sym.name) else {
                     continue;
@@ -2028,6 +2037,8 @@ impl TypeCheckVisitor<'_> {
 
                 let field_ty = substitute_ty_vars(field_decl_ty, &ty_var_env);
                 if !is_subtype(&ty, &field_ty) {
+                    fields_match = false;
+
                     let mut message_parts = vec![msgtext!("Expected ")];
                     message_parts.extend_from_slice(&field_ty.as_message_parts());
                     message_parts.push(msgtext!(" for this field but got "));
@@ -2044,10 +2055,26 @@ impl TypeCheckVisitor<'_> {
                 }
             }
 
+            // Keep the solved type arguments, so a field access on
+            // this value knows the field's type. If a field didn't
+            // match we've already reported it, so say nothing more.
+            let args = if fields_match {
+                struct_info
+                    .type_params
+                    .iter()
+                    .map(|type_param| match ty_var_env.get(&type_param.name) {
+                        Some(Some(ty)) => ty.clone(),
+                        _ => Type::Any,
+                    })
+                    .collect()
+            } else {
+                vec![]
+            };
+
             Type::UserDefined {
                 kind: TypeDefKind::Struct,
                 name: name_sym.name.clone(),
-                args: vec![],
+                args,
             }
         } else {
             Type::Error {
